@@ -47,6 +47,8 @@ def run_prop(prop, tier):
     open(cf, "w").write("\n".join(lines) + "\n")
     total += len(lines)
     _replay_into(ck, prop, cf, os.path.join(wd, "sim"), probe=True)
+    if prop in ("C14", "C15"):
+        _trace_validation(ck, prop, wd, 600 if thorough else 150)
     ck.cov["behaviours_replayed"] = total
     ck.cov["traces_validated_against_impl"] = total
     ck.cov["distinct_nontrivial"] = total
@@ -56,6 +58,71 @@ def run_prop(prop, tier):
                        "kernel semantics of mprotect/mlock/munlock as modelled in Protected.tla; /proc/self/smaps is the kernel's view",
                        "glibc posix_memalign/free: a released block whose address was handed out again is not inspected as released"]
     return ck.finish()
+
+
+def _direct(ev, prop, pg=4096):
+    """Model-independent judgement of one recorded event (used when the trace spec rejects it): returns a list of
+    property violations visible in the observation itself."""
+    out = []
+    obs = ev.get("obs", {})
+    if prop == "C15":
+        for r in obs.get("rel", []):
+            if r["nz"] != 0:
+                out.append("released memory not wiped: %d non-zero bytes of %d reach the allocator" % (r["nz"], r["size"]))
+        return out
+    if ev.get("ev") == "end":
+        if any(a["live"] for a in obs.get("allocs", [])):
+            out.append("allocation never released after the last drop")
+        if ev.get("vmlck_kb", 0) != 0:
+            out.append("residue after the last drop: VmLck not back to baseline")
+    for r in obs.get("regs", []):
+        if not r.get("alive") or not r.get("a") or r.get("len", 0) <= 0:
+            continue
+        if not r.get("contents_ok", True):
+            out.append("contents changed by %s" % ev.get("op", ["?"])[0])
+        pages = obs["allocs"][r["a"] - 1]["pages"]
+        want = 0 if r["wrap"] == "Plain" else ({"RW": 0, "RO": 1}[r["pm"]] + (4 if r["lm"] == "Locked" else 0))
+        for k in range((r["len"] + pg - 1) // pg):
+            if pages[1 + k] != want:
+                out.append("type state vs kernel: data page %d is not what the type says after %s" % (k + 1, ev.get("op", ["?"])[0]))
+        if pages[0] & 3 != 2 or pages[-1] & 3 != 2:
+            out.append("type state vs kernel: guard page missing after %s" % ev.get("op", ["?"])[0])
+    return out
+
+
+def _trace_validation(ck, prop, wd, runs):
+    """impl -> spec: random operation sequences chosen by the Rust driver, validated against ProtectedTrace.tla."""
+    build_shim()
+    binp = build_harness("nightly")
+    tr = os.path.join(wd, "trace.ndjson")
+    env = dict(os.environ)
+    env["LD_PRELOAD"] = SHIM
+    rc, out = sh([binp, "prot-trace", tr, str(ck.seed), str(runs), "30"], env=env, timeout=3000)
+    if rc != 0:
+        raise ToolError("prot-trace failed:\n%s" % out[-2000:])
+    evs = [json.loads(l) for l in open(tr)]
+    for e in evs:
+        if e["ev"] == "crash" and prop == "C14":
+            ck.fail("process killed by signal %s during a random operation sequence" % e.get("signal"), {"trace": tr, "run": e.get("run")})
+    t = run_tlc("ProtectedTrace", workers=1, env={"TRACE": tr}, deque=True, xss="1g", coverage=False, timeout=3000, name=prop + "trace")
+    ck.add_tlc(t, "ProtectedTrace validation")
+    rej = trace_rejection(t)
+    if rej:
+        idx = rej.get("event")
+        direct = _direct(evs[idx - 1], prop) if idx else []
+        # every later event is unexamined by TLC: judge them with the model-independent oracle too
+        if idx:
+            for e in evs[idx:]:
+                direct += _direct(e, prop)
+        if direct:
+            for d in sorted(set(direct))[:5]:
+                ck.fail(d, dict(rej, trace=tr))
+        else:
+            print("WARNING %s: a recorded operation sequence is not a behaviour of Protected.tla although no property violation is visible in it - update the specification: %s" % (prop, json.dumps(rej)[:300]))
+            ck.cov["model_drift_traces"] = ck.cov.get("model_drift_traces", 0) + 1
+    ck.cov["trace_events_validated"] = len(evs)
+    ck.cov["random_runs_validated_by_tlc"] = runs
+    ck.cov["evaluations"] += len(evs)
 
 
 def _replay_into(ck, prop, cases, outprefix, probe):
